@@ -162,6 +162,10 @@ func (c *Chain) Close() {
 	if c.CS != nil {
 		c.CS.VerifStopWAL()
 	}
+	if os.Getenv("VERIF_KEEP") != "" {
+		fmt.Println("kept:", c.Dir)
+		return
+	}
 	os.RemoveAll(c.Dir)
 }
 
